@@ -17,7 +17,14 @@ class Budget(BaseException):
     """transport-call budget exceeded: the caller spins without making progress"""
 
 
+class Interrupt(BaseException):
+    """An asynchronous interruption of a blocked receive that the application catches and recovers from:
+    gevent.Timeout / eventlet.Timeout (both derive from BaseException), KeyboardInterrupt raised by a signal handler."""
+
+
 def timeout_exc(kind):
+    if kind == 4:
+        return Interrupt("receive interrupted")
     if kind == 0:
         return socket.timeout("timed out")
     if kind == 1:
